@@ -185,13 +185,15 @@ func TestSnapshots(t *testing.T) {
 			case "local-set":
 				e.srv.SetData(f.Fn, payload)
 			case "remote-write":
-				d := e.p.Msg(model.CmdClassifierTypeWrite, e.p.FA([]uint{1}, 2), e.srv.Address(), true, nil, listgen.Cmd(&f, u))
+				// with an acknowledgement the success result tells, without one the absence of an error result
+				ack := rapid.IntRange(0, 2).Draw(t, fmt.Sprintf("ack%d", i)) != 0
+				d := e.p.Msg(model.CmdClassifierTypeWrite, e.p.FA([]uint{1}, 2), e.srv.Address(), ack, nil, listgen.Cmd(&f, u))
 				e.p.Send(d)
 				e.w.Sync()
-				failed = true
+				failed = ack
 				for _, s := range e.p.Cap.Drain() {
-					if s.Ref() != nil && *s.Ref() == *d.Header.MsgCounter && s.ErrorNumber() == 0 {
-						failed = false
+					if s.Ref() != nil && *s.Ref() == *d.Header.MsgCounter {
+						failed = s.ErrorNumber() != 0
 					}
 				}
 			case "reply", "notify":
